@@ -59,3 +59,51 @@ package jobconfig
 //@   ensures [C16] template-is-a-copy-of-the-jobconfigs: result1 == nil ==> result0.Spec.Template != nil && fresh(result0.Spec.Template)
 //@        && result0.Spec.Template.MaxAttempts == jobConfig.Spec.Template.Spec.MaxAttempts && result0.Spec.Template.Parallelism == jobConfig.Spec.Template.Spec.Parallelism
 //@   ensures [C02] jobconfig-untouched: *jobConfig == old(*jobConfig)
+
+// ---- job_utils.go / state.go: what the JobConfig status is computed from (C15) ------------------------------------------------
+
+// the schedule time a Job records in its annotation (Unix seconds), if it records a parsable one
+//@ pure hasSched(rj *execution.Job) bool = (AnnotationKeyScheduleTime in rj.Annotations) && atoiOK(rj.Annotations[AnnotationKeyScheduleTime])
+//@ pure schedTime(rj *execution.Job) time.Time = time.Unix(atoi(rj.Annotations[AnnotationKeyScheduleTime]), 0)
+// nanoseconds of an optional timestamp; absent counts as the zero time (the earliest)
+//@ pure tsNs(t *metav1.Time) Int = t == nil ? ns(zero(time.Time)) : ns(t.Time)
+
+//@ func GetLabelScheduleTime
+//@   tags C15
+//@   requires rj != nil
+//@   fresh result
+//@   ensures [C15] (result != nil) == hasSched(rj)
+//@   ensures [C15] result != nil ==> result.Time == schedTime(rj)
+
+// the latest schedule time of the given Jobs (nil if there is none after the zero time)
+//@ func GetLastScheduleTime
+//@   tags C15
+//@   requires forall i int :: 0 <= i && i < len(jobs) ==> jobs[i] != nil
+//@   loop 1 invariant -1 <= rangeindex && rangeindex < len(jobs)
+//@   loop 1 invariant forall k int :: 0 <= k && k <= rangeindex && hasSched(jobs[k]) ==> ns(lastScheduleTime.Time) >= ns(schedTime(jobs[k]))
+//@   loop 1 invariant lastScheduleTime.Time.IsZero() || (exists k int :: 0 <= k && k <= rangeindex && hasSched(jobs[k]) && lastScheduleTime.Time == schedTime(jobs[k]))
+//@   ensures [C15] at-least-every-schedule-time: forall k int :: 0 <= k && k < len(jobs) && hasSched(jobs[k]) ==> tsNs(result) >= ns(schedTime(jobs[k]))
+//@   ensures [C15] is-one-of-them: result != nil ==> !result.Time.IsZero() && (exists k int :: 0 <= k && k < len(jobs) && hasSched(jobs[k]) && result.Time == schedTime(jobs[k]))
+
+// the latest start time of the given Jobs (nil if none has started)
+//@ func GetLastStartTime
+//@   tags C15
+//@   requires forall i int :: 0 <= i && i < len(jobs) ==> jobs[i] != nil
+//@   loop 1 invariant -1 <= rangeindex && rangeindex < len(jobs)
+//@   loop 1 invariant forall k int :: 0 <= k && k <= rangeindex && job.IsStarted(jobs[k]) ==> ns(lastStartTime.Time) >= ns(jobs[k].Status.StartTime.Time)
+//@   loop 1 invariant lastStartTime.Time.IsZero() || (exists k int :: 0 <= k && k <= rangeindex && job.IsStarted(jobs[k]) && lastStartTime.Time == jobs[k].Status.StartTime.Time)
+//@   ensures [C15] at-least-every-start-time: forall k int :: 0 <= k && k < len(jobs) && job.IsStarted(jobs[k]) ==> tsNs(result) >= ns(jobs[k].Status.StartTime.Time)
+//@   ensures [C15] is-one-of-them: result != nil ==> !result.Time.IsZero() && (exists k int :: 0 <= k && k < len(jobs) && job.IsStarted(jobs[k]) && result.Time == jobs[k].Status.StartTime.Time)
+
+// the state reflects the counts and the schedule (C15)
+//@ pure stateFor(active int64, queued int64, sched *execution.ScheduleSpec) execution.JobConfigState =
+//@     active > 0 ? execution.JobConfigExecuting : (queued > 0 ? execution.JobConfigJobQueued
+//@     : ((sched != nil && sched.Cron != nil) ? (sched.Disabled ? execution.JobConfigReadyDisabled : execution.JobConfigReadyEnabled) : execution.JobConfigReady))
+//@ func GetState
+//@   requires rjc != nil
+//@   ensures [C15] result == stateFor(rjc.Status.Active, rjc.Status.Queued, rjc.Spec.Schedule)
+
+//@ func LabelJobsForJobConfig
+//@   requires rjc != nil
+//@   fresh result
+//@   ensures [C15] result != nil && (LabelKeyJobConfigUID in result) && result[LabelKeyJobConfigUID] == string(rjc.UID)
